@@ -170,6 +170,14 @@ def run_items(ctx, rep, rule):
             dt = t.get("dest_ty", "")
             if not (dt.startswith("std::option::Option<std::result::Result<") and "RusticError" in dt):
                 continue
+            # only iterators fed by reads of the REPOSITORY are in scope (as for the adaptor rule): a loop over the backup
+            # source pipeline logs and skips unreadable source entries by design
+            recv = op_place(t["args"][0]) if t["args"] else None
+            prov = flow.backward_slice(b, recv)["calls"] if recv else set()
+            ga = " ".join(t.get("gargs") or []) + " " + callee(t)
+            if not any(REPO_READ.search(c) for c in prov) and not REPO_READ.search(ga):
+                rep.check(rule, f"{fn_key(b)}/item/not-a-repository-read", True, where=where(b, bb), what=f"{fn_key(b)}: loop over Result items that do not come from repository reads (source pipeline / local walk): out of scope", nontrivial=False)
+                continue
             n += 1
             k = fn_key(b)
             ordn[k] = ordn.get(k, 0) + 1
